@@ -19,7 +19,7 @@ SHEET = 'S'
 POOL = [0, 1, 2, 3, 5, 7, -4, 10, 12, 'text', '12', '', 'b', True, False, None]
 CLEAN_POOL = [2, 3, 5, 7, -4, 10, 12, 100, 'text', 'abc', '12', 'b']   # no None, no bool/0/1 confusions
 OPS = [('+', 0), ('-', 1), ('*', 2), ('&', 5), ('=', 7), ('<>', 8), ('<', 9), ('>=', 12)]
-AGGS = [('SUM', 0), ('MIN', 1), ('MAX', 2), ('COUNT', 3), ('AVERAGE', 4)]
+AGGS = [('SUM', 0), ('MIN', 1), ('MAX', 2), ('COUNT', 3)]   # AVERAGE would leave the float-exact domain when nested
 
 
 def cell_addr(row):
